@@ -18,6 +18,9 @@ Decided structurally:
         a bare object() comes back as a different object and every `is` test against it fails,
         for the copy and (in-process, where the class is re-used) for the original.
   C20.4 by-reference resolvability of the category classes (name = exported name).
+  C20.8 process independence of the namespace: no function that takes part in building an annotation's class
+        namespace reads a module-level table whose stored values depend on the order of registration in this
+        process (`1 << len(table)`, a counter, an id): by-value serialisers ship the namespace as it is.
 Not decided: cross-process equality of accepted sets (value level).
 """
 from __future__ import annotations
@@ -38,6 +41,7 @@ def run(ctx: RuleContext):
     ctx.sub(check_by_reference, ctx)
     ctx.sub(check_sentinels_by_reference, ctx)
     ctx.sub(check_no_mutable_state_in_namespace, ctx)
+    ctx.sub(check_namespace_is_process_independent, ctx)
     # C20.7: what an annotation accepts is decided from the annotation's own attributes, not from a table keyed by
     # something that a reloaded copy can share with another annotation (`id()` of a freed tuple, a name, a repr)
     from ..roles import roles_for
@@ -71,6 +75,27 @@ def check_registration(ctx):
     need(red is not None and hasattr(red, "node"), "the registered reducer is not a module-level function")
     ctx.saw(red)
     ctx.ok("C20.1", mod.qualname, f"copyreg.pickle({meta.name}, {red.name}) registered at import time")
+    # copyreg's dispatch table is looked up by the *exact* type of the object: every metaclass _make_array can instantiate needs
+    # its own registration (with the same reducer); the registration of a base metaclass does not cover a sub-metaclass
+    ma = m.func("_array_types._make_array")
+    sites = creation_sites(m, ma)
+    need(sites, "_make_array: the metaclass call that creates the annotation class was not found")
+    registered = {norm(c.args[0]): c for c in regs if len(c.args) == 2}
+    n_meta = 0
+    for call, klasses in sites:
+        for k in klasses:
+            n_meta += 1
+            reg = registered.get(k.name)
+            if reg is None:
+                ctx.bad("C20.1", ma, call, f"`{short(call, 50)}` creates annotations whose metaclass is `{k.name}`, which is not registered with copyreg.pickle (the dispatch "
+                        f"table is looked up by the exact type: the registration of {meta.name} does not cover it): such annotations are pickled by name, which fails for a "
+                        "dynamically created class", construct=f"copyreg.pickle({k.name}, ...) missing")
+            elif norm(reg.args[1]) != norm(good[0].args[1]):
+                raise AnalysisError(f"C20.1: `{k.name}` is registered with another reducer (`{norm(reg.args[1])}`) than {meta.name}; that reducer is not analysed")
+            else:
+                ctx.ok("C20.1", ma.qualname, f"annotations are instances of `{k.name}`, registered under exactly that type")
+    ctx.counters["annotation_metaclasses"] = n_meta
+    ctx.floor("C20.1", "annotation_metaclasses", 1)
     # base class reducer: on the `x is AbstractArray` side the reducer returns (helper, ()) with
     # helper() == AbstractArray
     from ..absim import eval_bool, simulate
@@ -156,18 +181,51 @@ def reducer_plan(ctx, red):
 def class_dict_fields(m, ma) -> dict:
     """field name -> value expression of the class dictionary handed to the metaclass call in
     _make_array: `dict(k=v, ...)`, a `{...}` display, or a name bound once to either."""
-    calls = [c for c in ast.walk(ma.node) if isinstance(c, ast.Call) and m.resolve_call(ma, c).kind == "class" and m.is_metaclass(m.resolve_call(ma, c).target)]
-    need(len(calls) == 1 and len(calls[0].args) >= 3, "_make_array: the metaclass call that creates the annotation class was not found")
-    d = calls[0].args[2]
+    calls = creation_sites(m, ma)
+    need(len(calls) == 1 and len(calls[0][0].args) >= 3, "_make_array: the metaclass call that creates the annotation class was not found")
+    d = calls[0][0].args[2]
+    extra = {}
     if isinstance(d, ast.Name):
         defs = c05._assignments_to(ma, d.id)
         need(len(defs) == 1, "_make_array: class dictionary variable has several definitions")
+        # entries added afterwards: `namespace["k"] = v` (possibly on one branch only)
+        for st in walk_scope(ma.node):
+            if isinstance(st, ast.Assign) and len(st.targets) == 1 and isinstance(st.targets[0], ast.Subscript) and norm(st.targets[0].value) == d.id:
+                k = st.targets[0].slice
+                need(isinstance(k, ast.Constant) and isinstance(k.value, str), f"_make_array: `{short(st, 60)}` adds a namespace entry under a computed name")
+                extra[k.value] = st.value
+            if isinstance(st, ast.Call) and isinstance(st.func, ast.Attribute) and norm(st.func.value) == d.id and st.func.attr in ("update", "setdefault", "pop", "clear", "popitem", "__setitem__"):
+                raise AnalysisError(f"_make_array: the class dictionary is modified by `{short(st, 60)}`; its entries are not known")
         d = defs[0][1]
     if isinstance(d, ast.Call) and norm(d.func) == "dict" and not d.args:
-        return {k.arg: k.value for k in d.keywords}, d
+        return {**{k.arg: k.value for k in d.keywords}, **extra}, d
     if isinstance(d, ast.Dict) and all(isinstance(k, ast.Constant) and isinstance(k.value, str) for k in d.keys):
-        return {k.value: v for k, v in zip(d.keys, d.values)}, d
+        return {**{k.value: v for k, v in zip(d.keys, d.values)}, **extra}, d
     raise AnalysisError(f"_make_array: class dictionary `{short(d, 60)}` has an unrecognised form")
+
+
+def creation_sites(m, ma) -> list:
+    """[(call, [metaclass ClassInfo, ...])]: the calls in _make_array that create an annotation class -- `Meta(name, bases, ns)` or
+    `meta(name, bases, ns)` with `meta` a local that is only ever bound to metaclasses of the package (`meta = A if c else B`, one per branch)."""
+    out = []
+    for c in ast.walk(ma.node):
+        if not isinstance(c, ast.Call):
+            continue
+        t = m.resolve_call(ma, c)
+        if t.kind == "class" and m.is_metaclass(t.target):
+            out.append((c, [t.target]))
+        elif isinstance(c.func, ast.Name) and c.func.id in ma.local_names() and len(c.args) == 3:
+            cands, ok = [], True
+            for st, val, _ in c05._assignments_to(ma, c.func.id):
+                for v in ([val.body, val.orelse] if isinstance(val, ast.IfExp) else [val]):
+                    k = m.resolve_expr_static(ma, v) if isinstance(v, (ast.Name, ast.Attribute)) else None
+                    if k is not None and hasattr(k, "methods") and m.is_metaclass(k):
+                        cands.append(k)
+                    else:
+                        ok = False
+            if cands and ok:
+                out.append((c, cands))
+    return out
 
 
 def _sentinel_defs(mod) -> dict:
@@ -453,6 +511,116 @@ def check_no_mutable_state_in_namespace(ctx):
                 construct=f"namespace field re-assigned after creation: {clash[0]}")
     else:
         ctx.ok("C20.6", ma.qualname, f"none of the {len(fields)} namespace fields is re-assigned after the class was created (re-assigned attributes: {sorted(mutated)})")
+
+
+_CONTAINER_CTORS = ("dict", "list", "set", "OrderedDict", "defaultdict", "WeakValueDictionary", "WeakKeyDictionary", "deque")
+_PROCESS_LOCAL_CALLS = ("id", "next", "getpid", "time", "monotonic", "perf_counter", "random", "randint", "getrandbits", "uuid4", "urandom", "hash", "get_ident")
+
+
+def _module_containers(mod) -> set:
+    out = set()
+    for n, vals in mod.assigns.items():
+        if any(isinstance(v, (ast.Dict, ast.List, ast.Set)) or (isinstance(v, ast.Call) and norm(v.func).split(".")[-1] in _CONTAINER_CTORS) for v in vals):
+            out.add(n)
+    return out
+
+
+def _table_stores(m, mod, table):
+    """(function, statement, stored value expression) for every run-time store into the module-level container `table`."""
+    out = []
+    for f in m.all_functions(include_typeguard=False):
+        if f.module is not mod or table in f.params or (table in f.local_names() and not any(isinstance(g, ast.Global) and table in g.names for g in ast.walk(f.node))):
+            continue
+        for st in walk_scope(f.node):
+            if isinstance(st, (ast.Assign, ast.AugAssign)):
+                tg = st.targets if isinstance(st, ast.Assign) else [st.target]
+                for t in tg:
+                    if isinstance(t, ast.Subscript) and isinstance(t.value, ast.Name) and t.value.id == table:
+                        out.append((f, st, st.value))
+            if isinstance(st, ast.Call) and isinstance(st.func, ast.Attribute) and isinstance(st.func.value, ast.Name) and st.func.value.id == table:
+                if st.func.attr in ("setdefault",) and len(st.args) == 2:
+                    out.append((f, st, st.args[1]))
+                elif st.func.attr in ("append", "add", "appendleft") and st.args:
+                    out.append((f, st, st.args[0]))
+                elif st.func.attr in ("update", "extend", "insert"):
+                    out.append((f, st, st))
+    return out
+
+
+def _state_dependence(f, v, table, depth=0):
+    """Why the value `v` stored into `table` depends on the state of this process rather than on the key alone, else None."""
+    for n in ast.walk(v):
+        if isinstance(n, ast.Call):
+            fn = norm(n.func).split(".")[-1]
+            if fn == "len" and n.args and isinstance(n.args[0], ast.Name) and n.args[0].id == table:
+                return f"`{norm(n)}`: the number of entries registered so far in this process"
+            if fn in _PROCESS_LOCAL_CALLS:
+                return f"`{short(n, 40)}`: a value of this process"
+        if isinstance(n, ast.Name) and isinstance(n.ctx, ast.Load) and depth < 3 and n.id not in f.params:
+            for st, val, _ in c05._assignments_to(f, n.id):
+                if val is not None and val is not v:
+                    why = _state_dependence(f, val, table, depth + 1)
+                    if why:
+                        return why
+    return None
+
+
+def check_namespace_is_process_independent(ctx):
+    """C20.8: 'a copy that travelled to another process accepts what the original accepts'.  A by-value serialiser (cloudpickle) ships the
+    class namespace as it is; a namespace entry may therefore only hold what is determined by the subscription itself.  An entry computed
+    from a process-local registry whose values depend on the order of registration (`bit = 1 << len(table)`, a counter, an id) means
+    something else in a process that registered in a different order."""
+    m = ctx.model
+    mod = m.module("_array_types")
+    ma = m.func("_array_types._make_array")
+    mac = m.func("_array_types._make_array_cached")
+    fields, dict_call = class_dict_fields(m, ma)
+    conts = _module_containers(mod)
+    ctx.counters["module_level_containers"] = len(conts)
+    # functions that take part in building the namespace
+    reach, stack = {}, [ma, mac]
+    while stack:
+        f = stack.pop()
+        if f.qualname in reach:
+            continue
+        reach[f.qualname] = f
+        for c in m.calls_in(f):
+            t = m.resolve_call(f, c)
+            if t.kind == "func" and t.target.module is mod:
+                stack.append(t.target)
+    ctx.counters["namespace_builders"] = len(reach)
+    ctx.floor("C20.8", "namespace_builders", 3)
+    read = {}
+    for f in reach.values():
+        for n in walk_scope(f.node):
+            if isinstance(n, ast.Name) and isinstance(n.ctx, ast.Load) and n.id in conts and n.id not in f.params and n.id not in f.local_names():
+                read.setdefault(n.id, (f, n))
+    n_bad = 0
+    for table, (rf, rn) in sorted(read.items()):
+        stores = _table_stores(m, mod, table)
+        if not stores:
+            ctx.ok("C20.8", rf.qualname, f"the module-level table `{table}` read while building an annotation is never written at run time")
+            continue
+        for sf, st, v in stores:
+            why = _state_dependence(sf, v, table)
+            if why:
+                n_bad += 1
+                # which namespace entries / which check-time reads: named for the report only
+                ctx.bad("C20.8", sf, st, f"`{short(st, 70)}` fills the process-local table `{table}` with values that depend on {why}; {rf.qualname} reads that table while "
+                        f"the class namespace of an annotation is built ({len(fields)} entries, shipped as they are by by-value serialisers such as cloudpickle): in a "
+                        "process that registered in a different order the shipped value means something else, so the copy accepts other arrays than the original",
+                        construct=f"namespace built from order-dependent table {table}")
+            elif v is st:
+                raise AnalysisError(f"C20.8: `{short(st, 60)}` writes the table `{table}` that {rf.qualname} reads while building an annotation; what it stores is not interpreted")
+            else:
+                free = {x.id for x in ast.walk(v) if isinstance(x, ast.Name) and isinstance(x.ctx, ast.Load)}
+                unknown = {x for x in free if x not in sf.params and x not in sf.local_names() and m.resolve_name(sf, x).kind not in ("func", "class", "builtin", "import", "modfunc")}
+                if unknown & conts or any(m.resolve_name(sf, x).kind == "modvar" and len(m.resolve_name(sf, x).target[0].assigns.get(x, [])) > 1 for x in unknown):
+                    raise AnalysisError(f"C20.8: `{short(st, 60)}` stores a value built from module-level state ({sorted(unknown)}) into `{table}`, which {rf.qualname} reads "
+                                        "while building an annotation; whether it is the same in every process is not known")
+                ctx.ok("C20.8", sf.qualname, f"`{short(st, 60)}`: what is stored in `{table}` is computed from the key / the arguments alone (a memo)")
+    if not read:
+        ctx.ok("C20.8", ma.qualname, f"none of the {len(reach)} functions that build an annotation's namespace reads a module-level container ({len(conts)} in the module)")
 
 
 def check_by_reference(ctx):
